@@ -15,6 +15,7 @@ def run(chk, tier):
     for name, std in plan:
         lib = lib_for(name, std)
         spec_array.check_static(chk, lib)
+    spec_array.check_array_scans_bounded(chk, lib_for("vprims_le", "c++20"))
     # iterator-pair overloads are documented for input iterators: a single-pass range is traversed once
     import singlepass
     singlepass.check(chk, lib_for("vprims_le", "c++17"))
